@@ -1,6 +1,7 @@
 package main
 
 import (
+	"go/token"
 	"fmt"
 	"os"
 	"runtime/debug"
@@ -194,6 +195,57 @@ const allocSort = "(Array Int Bool)"
 
 func (fx *FnCtx) env(st *State) *Env {
 	return &Env{named: st.named, heap: st.heap, old: fx.entry, st: st}
+}
+
+// envAt is env with Go's block scoping applied to the names a spec expression may mention: a name
+// that Go resolves at pos to a local of this function denotes that local (an inner-scope variable of
+// the same name declared earlier, e.g. `if _, ok := m[k]; ok {...}`, does not shadow it any more).
+func (fx *FnCtx) envAt(st *State, pos token.Pos) *Env {
+	e := fx.env(st)
+	if !pos.IsValid() {
+		return e
+	}
+	sc := fx.pkg.Types.Scope().Innermost(pos)
+	if sc == nil {
+		return e
+	}
+	var named map[string]Val
+	for k, cur := range st.named {
+		if fx.hiddenNames[k] {
+			continue
+		}
+		_, obj := sc.LookupParent(k, pos)
+		vo, isVar := obj.(*types.Var)
+		if !isVar {
+			continue
+		}
+		v, ok := st.vars[vo]
+		if !ok || v == cur {
+			continue
+		}
+		if named == nil {
+			named = make(map[string]Val, len(st.named))
+			for k2, v2 := range st.named {
+				named[k2] = v2
+			}
+		}
+		named[k] = v
+	}
+	if named != nil {
+		e.named = named
+	}
+	return e
+}
+
+// loopScopePos is a position inside the body of a loop statement (loop variables are in scope there).
+func loopScopePos(n ast.Node) token.Pos {
+	switch x := n.(type) {
+	case *ast.ForStmt:
+		return x.Body.Lbrace + 1
+	case *ast.RangeStmt:
+		return x.Body.Lbrace + 1
+	}
+	return n.Pos()
 }
 
 func (fx *FnCtx) pos(n ast.Node) string {
